@@ -1,6 +1,6 @@
 (* Proofs about Model/C13.v: the periodic longitude box only grows and contains every inserted
-   longitude; latitude bounds enclose / are attained; pole branches; the faithful normal branch loses
-   a corner latitude (refuted by a concrete face), the repaired one does not.  For every edge list. *)
+   longitude; latitude bounds enclose / are attained; pole branches; the normal branch (code since the fix
+   bb1965a6: node, then both extremes) encloses every corner and both extremes of every edge.  For every edge list. *)
 From Coq Require Import ZArith Lia ZifyBool List Bool.
 From Verif Require Import Base C13.
 Local Open Scope Z_scope.
@@ -219,26 +219,11 @@ End InsList.
 (* ------------------------------------------------------------------------------------------ *)
 (* the normal branch and its repair as insertion sequences                                       *)
 
-Definition c13_pick_normal (e : c13_edge) : Z * Z :=
-  if negb (c13_c1max e) && negb (c13_c2max e) then (c13_emax e, c13_lon1 e)
-  else if negb (c13_c1min e) && negb (c13_c2min e) then (c13_emin e, c13_lon1 e)
-  else (c13_lat1 e, c13_lon1 e).
-
 Definition c13_three (e : c13_edge) : list (Z * Z) :=
   [(c13_lat1 e, c13_lon1 e); (c13_emax e, c13_lon1 e); (c13_emin e, c13_lon1 e)].
 
 Lemma c13_normal_as_list P H es : forall b,
-  fold_left (c13_step_normal P H) es b = c13_ins_list P H b (map c13_pick_normal es).
-Proof.
-  induction es as [|e es IH]; intros b; [reflexivity|].
-  cbn [fold_left map c13_ins_list]. rewrite IH. unfold c13_ins_list. f_equal.
-  unfold c13_step_normal, c13_pick_normal.
-  destruct (negb (c13_c1max e) && negb (c13_c2max e)); [reflexivity|].
-  destruct (negb (c13_c1min e) && negb (c13_c2min e)); reflexivity.
-Qed.
-
-Lemma c13_repaired_as_list P H es : forall b,
-  fold_left (c13_step_repaired P H) es b = c13_ins_list P H b (flat_map c13_three es).
+  fold_left (c13_step_normal P H) es b = c13_ins_list P H b (flat_map c13_three es).
 Proof.
   induction es as [|e es IH]; intros b; [reflexivity|].
   cbn [fold_left flat_map]. rewrite IH. unfold c13_ins_list. rewrite fold_left_app. reflexivity.
@@ -254,46 +239,11 @@ Section Branches.
   Hypothesis HH : 0 < H.
   Hypothesis HF : FILL < - H.
 
-  (* faithful normal branch: every corner longitude is inside the reported interval (the longitude logic is
-     sound), and both latitude bounds are attained by a corner latitude or an edge extreme *)
-  Lemma c13_normal_lon_and_tight es :
+  (* normal branch (code since bb1965a6): every corner latitude and both extremes of every edge lie in [lat_lo, lat_hi], every
+     corner longitude in the interval, and the bounds are attained *)
+  Lemma c13_normal_encloses es :
     Forall (c13_edge_ok H) es ->
     let b := c13_bounds_normal P H es in
-    (forall e, In e es -> c13_lon_in b (c13_norm P (c13_lon1 e)) = true) /\
-    (es <> [] ->
-     (exists e, In e es /\ (c13_lat_lo b = c13_lat1 e \/ c13_lat_lo b = c13_emax e \/ c13_lat_lo b = c13_emin e)) /\
-     (exists e, In e es /\ (c13_lat_hi b = c13_lat1 e \/ c13_lat_hi b = c13_emax e \/ c13_lat_hi b = c13_emin e))).
-  Proof.
-    intros Hok. cbv zeta. unfold c13_bounds_normal. rewrite c13_normal_as_list.
-    assert (HR : Forall c13_regular (map c13_pick_normal es)).
-    { apply Forall_forall. intros p Hp. apply in_map_iff in Hp. destruct Hp as (e & <- & He).
-      rewrite Forall_forall in Hok. destruct (c13_edge_ok_regular H e HF (Hok e He)) as (R1 & R2 & R3).
-      unfold c13_pick_normal. destruct (negb (c13_c1max e) && negb (c13_c2max e)); [exact R2|].
-      destruct (negb (c13_c1min e) && negb (c13_c2min e)); [exact R3|exact R1]. }
-    destruct (c13_ins_list_spec P H HP HH HF _ HR) as [A B]. cbv zeta in A, B.
-    assert (Pick : forall v, In v (map fst (map c13_pick_normal es)) ->
-                   exists e, In e es /\ (v = c13_lat1 e \/ v = c13_emax e \/ v = c13_emin e)).
-    { intros v Hv. apply in_map_iff in Hv. destruct Hv as (p & <- & Hp). apply in_map_iff in Hp.
-      destruct Hp as (e & <- & He). exists e. split; [exact He|].
-      unfold c13_pick_normal. destruct (negb (c13_c1max e) && negb (c13_c2max e)); [right; left; reflexivity|].
-      destruct (negb (c13_c1min e) && negb (c13_c2min e)); [right; right; reflexivity|left; reflexivity]. }
-    split.
-    - intros e He.
-      assert (Hin : In (c13_pick_normal e) (map c13_pick_normal es)) by (apply in_map; exact He).
-      destruct (A _ Hin) as [L _].
-      assert (E : snd (c13_pick_normal e) = c13_lon1 e).
-      { unfold c13_pick_normal. destruct (negb (c13_c1max e) && negb (c13_c2max e)); [reflexivity|].
-        destruct (negb (c13_c1min e) && negb (c13_c2min e)); reflexivity. }
-      rewrite E in L. exact L.
-    - intros Hne. assert (Hne' : map c13_pick_normal es <> []) by (destruct es; [contradiction|discriminate]).
-      destruct (B Hne') as [B1 B2]. split; apply Pick; assumption.
-  Qed.
-
-  (* repaired normal branch: every corner latitude and both extremes of every edge lie in [lat_lo, lat_hi], every
-     corner longitude in the interval, and the bounds are attained *)
-  Lemma c13_repaired_encloses es :
-    Forall (c13_edge_ok H) es ->
-    let b := c13_bounds_repaired P H es in
     (forall e, In e es ->
        c13_lat_lo b <= c13_lat1 e <= c13_lat_hi b /\ c13_lat_lo b <= c13_emin e /\ c13_emax e <= c13_lat_hi b /\
        c13_lon_in b (c13_norm P (c13_lon1 e)) = true) /\
@@ -301,7 +251,7 @@ Section Branches.
      (exists e, In e es /\ (c13_lat_lo b = c13_lat1 e \/ c13_lat_lo b = c13_emax e \/ c13_lat_lo b = c13_emin e)) /\
      (exists e, In e es /\ (c13_lat_hi b = c13_lat1 e \/ c13_lat_hi b = c13_emax e \/ c13_lat_hi b = c13_emin e))).
   Proof.
-    intros Hok. cbv zeta. unfold c13_bounds_repaired. rewrite c13_repaired_as_list.
+    intros Hok. cbv zeta. unfold c13_bounds_normal. rewrite c13_normal_as_list.
     assert (HR : Forall c13_regular (flat_map c13_three es)).
     { apply Forall_forall. intros p Hp. apply in_flat_map in Hp. destruct Hp as (e & He & Hp).
       rewrite Forall_forall in Hok. destruct (c13_edge_ok_regular H e HF (Hok e He)) as (R1 & R2 & R3).
@@ -326,35 +276,24 @@ Section Branches.
   Qed.
 End Branches.
 
-(* the faithful normal branch loses a corner latitude: the quadrilateral (0,40) (60,40.5) (60,60) (0,60) degrees
-   (units: 1e-6 degree; extremes of the four great-circle edges rounded to that unit; flags truthful).  The
-   reported lower latitude bound is 40.5 degrees although a corner lies at 40. *)
+(* the face that refuted latitude enclosure before the fix bb1965a6: quadrilateral (0,40) (60,40.5) (60,60) (0,60)
+   degrees (unit 1e-6 degree; extremes of the four great-circle edges rounded to that unit).  The old branch reported the
+   lower bound 40.5; the current code reports 40 and the top of the bulging edge. *)
 Definition c13_witness : list c13_edge :=
-  [ {| c13_lat1 := 40000000; c13_lon1 := 0;        c13_lat2 := 40500000; c13_emax := 44353182; c13_emin := 40000000;
-       c13_c1max := false; c13_c2max := false; c13_c1min := true;  c13_c2min := false; c13_pole_here := false |};
-    {| c13_lat1 := 40500000; c13_lon1 := 60000000; c13_lat2 := 60000000; c13_emax := 60000000; c13_emin := 40500000;
-       c13_c1max := false; c13_c2max := true;  c13_c1min := true;  c13_c2min := false; c13_pole_here := false |};
-    {| c13_lat1 := 60000000; c13_lon1 := 60000000; c13_lat2 := 60000000; c13_emax := 63434949; c13_emin := 60000000;
-       c13_c1max := false; c13_c2max := false; c13_c1min := true;  c13_c2min := true;  c13_pole_here := false |};
-    {| c13_lat1 := 60000000; c13_lon1 := 0;        c13_lat2 := 40000000; c13_emax := 60000000; c13_emin := 40000000;
-       c13_c1max := true;  c13_c2max := false; c13_c1min := false; c13_c2min := true;  c13_pole_here := false |} ].
+  [ {| c13_lat1 := 40000000; c13_lon1 := 0;        c13_lat2 := 40500000; c13_emax := 44353182; c13_emin := 40000000; c13_pole_here := false |};
+    {| c13_lat1 := 40500000; c13_lon1 := 60000000; c13_lat2 := 60000000; c13_emax := 60000000; c13_emin := 40500000; c13_pole_here := false |};
+    {| c13_lat1 := 60000000; c13_lon1 := 60000000; c13_lat2 := 60000000; c13_emax := 63434949; c13_emin := 60000000; c13_pole_here := false |};
+    {| c13_lat1 := 60000000; c13_lon1 := 0;        c13_lat2 := 40000000; c13_emax := 60000000; c13_emin := 40000000; c13_pole_here := false |} ].
 
-Lemma c13_normal_lat_refuted :
+Example c13_ex_witness_now_enclosed :
   let P := 360000000 in let H := 90000000 in
-  Forall (c13_edge_ok H) c13_witness /\ Forall c13_truthful c13_witness /\
-  exists e, In e c13_witness /\ c13_lat_in (c13_bounds_normal P H c13_witness) (c13_lat1 e) = false.
+  c13_witness <> [] /\ Forall (c13_edge_ok H) c13_witness /\
+  c13_bounds_normal P H c13_witness =
+    {| c13_lat_lo := 40000000; c13_lat_hi := 63434949; c13_lon_lo := 0; c13_lon_hi := 60000000 |}.
 Proof.
-  cbv zeta. split; [|split].
-  - unfold c13_witness. repeat constructor; unfold FILL; cbn; lia.
-  - unfold c13_witness. repeat constructor.
-  - eexists. split; [left; reflexivity|]. vm_compute. reflexivity.
+  cbv zeta. split; [discriminate|]. split; [|vm_compute; reflexivity].
+  unfold c13_witness. repeat constructor; unfold FILL; cbn; lia.
 Qed.
-
-Lemma c13_repaired_on_witness :
-  let P := 360000000 in let H := 90000000 in
-  c13_lat_lo (c13_bounds_repaired P H c13_witness) = 40000000 /\
-  c13_lat_hi (c13_bounds_repaired P H c13_witness) = 63434949.
-Proof. vm_compute. split; reflexivity. Qed.
 
 (* ------------------------------------------------------------------------------------------ *)
 (* pole branches                                                                                *)
@@ -552,8 +491,7 @@ End Pole.
 (* polar cap with corners at latitude 80 and longitudes 5, 95, 185, 275 degrees (unit 1e-6 degree); the great-circle
    edges dip to 75.99 degrees... the extreme values only have to satisfy c13_edge_ok here *)
 Definition c13_cap : list c13_edge :=
-  map (fun lon => {| c13_lat1 := 80000000; c13_lon1 := lon; c13_lat2 := 80000000; c13_emax := 82873960; c13_emin := 80000000;
-                     c13_c1max := false; c13_c2max := false; c13_c1min := true; c13_c2min := true; c13_pole_here := false |})
+  map (fun lon => {| c13_lat1 := 80000000; c13_lon1 := lon; c13_lat2 := 80000000; c13_emax := 82873960; c13_emin := 80000000; c13_pole_here := false |})
       [5000000; 95000000; 185000000; 275000000].
 
 Example c13_ex_pole :
